@@ -1259,7 +1259,11 @@ static void union_initializer(Token **rest, Token *tok, Initializer *init) {
 //             | struct-initializer | union-initializer
 //             | assign
 static void initializer2(Token **rest, Token *tok, Initializer *init) {
-  if (init->ty->kind == TY_ARRAY && tok->kind == TK_STR) {
+  // A string literal initializes an array of character type. For an
+  // array of anything else it belongs to the first element (brace
+  // elision): `char s[2][3] = {"ab"}`, `char *p[2] = {"a", "b"}`.
+  if (init->ty->kind == TY_ARRAY && tok->kind == TK_STR &&
+      is_integer(init->ty->base)) {
     string_initializer(rest, tok, init);
     return;
   }
